@@ -26,7 +26,7 @@ def plan(tier, seed):
 
 def thresholds(tier):
   t = {"types_built": 300, "values_checked": 5000, "layout_comparisons": 5000, "aliasing_probes": 20000,
-       "types_with_list_field": 100, "types_nested": 100, "hash_comparisons": 1000}
+       "types_with_list_field": 100, "types_nested": 100, "hash_comparisons": 1000, "same_name_redeclarations": 200}
   if tier == "thorough":
     t = {k: v * 15 for k, v in t.items()}
   return t
@@ -301,6 +301,22 @@ def check_type(sh, shape, rng, case):
   sh.sample({"shape": shape_fp(shape), "nbits": total, "leaves": len(leaves), "values": len(vals)})
 
 
+def name_variants(shape, rng):
+  _, name, fields = shape
+  out = []
+  if len(fields) >= 2:
+    f2 = list(fields); rng.shuffle(f2)
+    if f2 != fields: out.append(("struct", name, f2))
+    i, j = rng.sample(range(len(fields)), 2)
+    if shape_fp(fields[i][1]) != shape_fp(fields[j][1]):
+      f3 = list(fields); f3[i], f3[j] = (fields[i][0], fields[j][1]), (fields[j][0], fields[i][1])
+      out.append(("struct", name, f3))
+    out.append(("struct", name, fields[:-1]))
+  out.append(("struct", name, list(fields)))
+  rng.shuffle(out)
+  return out[:3]
+
+
 def run_shard(sh):
   rng = sh.rng("types")
   uid = [0]
@@ -315,6 +331,13 @@ def run_shard(sh):
       continue
     try:
       check_type(sh, shape, r, case)
+      # history: other declarations under the SAME class name in this process (permuted field order, swapped field types,
+      # dropped field, identical re-declaration) - each must get its own layout, and the first one must keep its own
+      if r.random() < 0.4:
+        for var in name_variants(shape, r):
+          sh.count("same_name_redeclarations")
+          check_type(sh, var, r, case)
+        check_type(sh, shape, r, case)
     except Exception as e:
       import traceback
       sh.violation("api-raised-on-legal-use", {"shape": shape_fp(shape), "error": traceback.format_exc()[-800:]}, case=case)
